@@ -31,6 +31,7 @@ INDEX = {
  ]},
  "C03": {"package": "./roaring", "harnesses": [
    {"name": "VerifH03Isolation", "common": {"max_depth": 3000}, "quick": {"bounds": {"atyps": 1, "array": 2, "runs": 1, "words": 1, "bases": 1, "wordmask6": 1, "runlen": 2, "derivations": 7, "mutations": 5, "kinds": 1, "btyps": 1}}, "thorough": {"bounds": {"array": 2, "runs": 1, "words": 1, "bases": 1, "wordmask6": 1, "runlen": 2, "derivations": 7, "mutations": 7, "kinds": 2, "btyps": 2}, "max_paths": 600000}},
+   {"name": "VerifH03TimeRangeResults", "package": ".", "common": {"max_depth": 3000}, "quick": {"bounds": {"quanta": 2}}, "thorough": {"bounds": {"quanta": 3}}},
  ]},
  "C04": {"package": "./roaring", "harnesses": [
    {"name": "VerifH04RoundTrip", "common": {"max_depth": 2000}, "quick": {"bounds": {"containers": 1, "array": 2, "runs": 2, "words": 1, "bases": 1, "wordmask6": 1, "keychoices": 2}}, "thorough": {"bounds": {"containers": 2, "array": 3, "runs": 3, "words": 1, "bases": 2, "wordmask6": 1, "keychoices": 2}}},
@@ -78,6 +79,7 @@ INDEX = {
  ]},
  "C12": {"package": ".", "harnesses": [
    {"name": "VerifH12TopIDs", "common": {"max_depth": 3000}, "quick": {"bounds": {"steps": 2, "ops": 9, "rows": 2, "colhis": 1, "caches": 2, "cachesizes": 1, "filters": 2}}, "thorough": {"bounds": {"steps": 2, "ops": 9, "rows": 3, "colhis": 2, "caches": 2, "cachesizes": 2, "filters": 2}}},
+   {"name": "VerifH12TopN", "common": {"max_depth": 3000}, "quick": {"bounds": {"steps": 1}}, "thorough": {"bounds": {"steps": 2}}},
  ]},
  "C13": {"package": ".", "harnesses": [
    {"name": "VerifH13Mutex", "common": {"max_depth": 2000}, "quick": {"bounds": {"steps": 2, "ops": 3, "batch": 2}}, "thorough": {"bounds": {"steps": 2, "ops": 3, "batch": 3}}},
